@@ -608,6 +608,10 @@ theorem recovery_rotation_close (R₁ R₂ : M3 K) (ho₁ : R₁.mul R₁.transp
     (lt_of_lt_of_le hm hab) v hv
   exact le_trans (mul_le_mul_of_nonneg_right hab (V3.nrm2_nonneg _)) h
 
+-- (update: the two items below marked NOT proved — the quantitative shift bound and the mirror = true recipe — are now
+--  proved in `Props/C12Shift.lean` (`recovery_shift_close`, `recovery_shift_close_on_two`) and `Props/C12Mirror.lean`
+--  (`align_recovers_motion_mirror`, `mirror_never_needed_for_planar`, `chiral_needs_mirror`); what remains open is the
+--  float statement "the aligner reaches a given ε".)
 -- FULL: the property also says the SHIFT is (numerically) the applied one.  Proved here: exactly (`motion_unique`,
 -- `align_recovers_motion*`: T = t = c̄ − U r̄) and, for the rotation, quantitatively (above).  NOT proved: the
 -- quantitative shift bound the harness uses on the margin-only class, |T − t| ≤ |r̄|·‖A − Uᵀ‖₂ + |mean residual|
